@@ -97,7 +97,7 @@ def run():
             roles.add("verdict-changed-by-re-owning")
         elif any(R.exhaustive_heuristic_family(a) for a in targets[i][3]):
             roles.add("not-plain-tree-tail")
-        elif any(R.has_nullable_component(a) for a in targets[i][3] if a):
+        elif any(R.has_nullable_top_component(a) and R.plain_tree_tail(a) for a in targets[i][3] if a):
             roles.add("open-component-matched-by-nothing")
         rep.candidate(roles, {"short": {"program": targets[i][0], "is_exhaustive": "Always",
                                         "matches": matched_anc[-1], "but_not_descendant": w}})
